@@ -186,6 +186,29 @@ Prop_Serialisable(E, v) == JsonOK(Ser(E, v, TRUE)) /\ JsonOK(Ser(E, v, FALSE))
 Prop_RoundTrip(E, v)    == FromJson(E, Ser(E, v, TRUE)) = Canon(v)
 Prop_BinaryExcluded(E, v) == Ser(E, v, FALSE) = Ser(E, NullBinary(v), TRUE)
 Prop_C05(E, v) == Prop_Serialisable(E, v) /\ Prop_RoundTrip(E, v) /\ Prop_BinaryExcluded(E, v)
+\* (+ Prop_BinaryOnlyInBinaryFields below, which concerns values an EXTRACTOR puts into a field)
+
+(* ------------------------------------------------------------------ binary values only in binary fields *)
+\* "With binary payloads excluded exactly the BINARY FIELDS become null": a bytes / BytesIO value may
+\* stand only where the declared type of the position is bytes, io.BytesIO or Any (or a hint the schema
+\* export could not classify) -- never in a field declared str / int / a dataclass / a list: such a
+\* TEXT field would be written as a base64 wrapper, become null with binaries excluded and come back from
+\* from_json as bytes.  None is tolerated everywhere (several str fields default to None).
+GenOf(h) == IF h.k = "opt" THEN h.of ELSE IF h.k = "other" THEN (IF h.g.k = "opt" THEN h.g.of ELSE h.g) ELSE h
+RECURSIVE BinaryWhereDeclared(_, _, _)
+BinaryWhereDeclared(E, v, hint) ==
+    LET h == GenOf(hint) IN
+    CASE v.t \in {"bytes", "bytesio"} -> h.k \in {"bytes", "bytesio", "any", "dflt"}
+      [] v.t = "dc" ->
+            \/ v.c \notin DOMAIN E.schema
+            \/ \A i \in DOMAIN v.f : \A q \in DOMAIN E.schema[v.c] :
+                   E.schema[v.c][q][1] = v.f[i][1] => BinaryWhereDeclared(E, v.f[i][2], E.schema[v.c][q][2])
+      [] v.t = "dict" ->
+            \A i \in DOMAIN v.kv : BinaryWhereDeclared(E, v.kv[i][2], IF h.k = "dict" THEN h.of ELSE AnyHint)
+      [] v.t \in {"list", "tuple", "set"} ->
+            \A i \in DOMAIN v.xs : BinaryWhereDeclared(E, v.xs[i], IF h.k = "list" THEN h.of ELSE AnyHint)
+      [] OTHER -> TRUE
+Prop_BinaryOnlyInBinaryFields(E, v) == BinaryWhereDeclared(E, v, AnyHint)
 
 (* ------------------------------------------------------------------ domain of KF-C05-01 *)
 \* v holds a plain dict with a marker key at a position the decoder reaches with an Any hint
